@@ -75,6 +75,9 @@ class BuildError(Exception):
     pass
 
 
+GEN_ERRORS = {}
+
+
 def build_harness(release=False):
     """cargo build of the harness crate against /repo's current working tree"""
     with Lock('cargo'):
@@ -108,11 +111,27 @@ def regen():
     pt2coq.main(os.path.join(tmp, 'Pt.v'))
     if write_if_changed(os.path.join(COQ, 'gen', 'Pt.v'), open(os.path.join(tmp, 'Pt.v')).read()):
         changed.append('Pt.v')
-    for mod, fname in [('tables2coq', 'Tables.v'), ('sections2coq', 'Sections.v'), ('effects2coq', 'Effects.v')]:
-        if not os.path.exists(os.path.join(TOOLS, mod + '.py')):
+    global GEN_ERRORS
+    GEN_ERRORS = {}
+    for path in sorted(glob.glob(os.path.join(TOOLS, '*2coq.py'))):
+        mod = os.path.basename(path)[:-3]
+        if mod in ('pt2coq', 'dbg2coq'):
             continue
-        m = __import__(mod)
-        txt = m.generate()
+        fname = mod[:-4].capitalize() + '.v'
+        try:
+            m = __import__(mod)
+            txt = m.generate()
+        except Exception as e:       # a translator that cannot read the source any more: the gen file is
+            GEN_ERRORS[fname] = repr(e)   # removed so that every theorem depending on it stops checking
+            log('translator %s failed: %r' % (mod, e))
+            if os.path.exists(os.path.join(COQ, 'gen', fname)):
+                os.remove(os.path.join(COQ, 'gen', fname))
+                for ext in ('.vo', '.glob', '.vos', '.vok'):
+                    f = os.path.join(COQ, 'gen', fname[:-2] + ext)
+                    if os.path.exists(f):
+                        os.remove(f)
+            changed.append(fname)
+            continue
         if write_if_changed(os.path.join(COQ, 'gen', fname), txt):
             changed.append(fname)
     return changed
@@ -276,7 +295,7 @@ def coq_str(b):
 # ----------------------------------------------------------------------------- program sets
 SHARD = 60
 
-CASE_HEADER = '''From Coq Require Import List String NArith Bool.
+CASE_HEADER = '''From Coq Require Import List String NArith ZArith Bool.
 Import ListNotations.
 From Solstat Require Import %s.
 Local Open Scope string_scope.
@@ -328,6 +347,7 @@ class ProgSet:
         self.name = name
         h = hashlib.sha256()
         import pt2coq
+        h.update(b'v2')
         h.update(open(os.path.join(TOOLS, 'pt2coq.py'), 'rb').read())
         h.update(open(os.path.join(TOOLS, 'dbg2coq.py'), 'rb').read())
         h.update(open(os.path.join(COQ, 'gen', 'Pt.v'), 'rb').read())
@@ -357,6 +377,7 @@ class ProgSet:
                     raise BuildError('harness prog failed: ' + out[-2000:])
                 meta = []
                 terms = []
+                srcs = []
                 for i, p in enumerate(self.all):
                     res = parse_res(open(os.path.join(self.dir, 'src', '%05d.res' % i), encoding='utf-8').read())
                     if res['parse'] != 'ok':
@@ -365,11 +386,13 @@ class ProgSet:
                     term, nodes, depth = dbg2coq.convert(res['dump'])
                     meta.append({'i': i, 'ok': True, 'nodes': nodes, 'depth': depth, 'j': len(terms)})
                     terms.append(term)
+                    srcs.append(p['src'])
                 nsh = (len(terms) + SHARD - 1) // SHARD
                 for k in range(nsh):
                     lines = [CASE_HEADER % 'Lift Pt Cases']
                     for j in range(k * SHARD, min(len(terms), (k + 1) * SHARD)):
                         lines.append('Definition p%d : SourceUnit := %s.' % (j, terms[j]))
+                        lines.append('Definition s%d : string := %s.' % (j, coq_str(srcs[j])))
                     open(os.path.join(self.dir, self.module(k) + '.v'), 'w', encoding='utf-8').write('\n'.join(lines) + '\n')
 
                 def comp(k):
